@@ -220,6 +220,23 @@ def instances():
         add('scas %s, %s es:[di]' % (acc, kw), 'scas', size, 'none16addr', 'string', low=True, bases16=['edi'], idx16=[], string=True)
         add('lods %s, %s ds:[si]' % (acc, kw), 'lods', size, 'none16addr', 'string', low=True, bases16=['esi'], idx16=[], string=True)
         add('stos %s es:[di], %s' % (kw, acc), 'stos', size, 'none16addr', 'string', low=True, bases16=['edi'], idx16=[], string=True)
+    # ---- a size prefix given twice is still one prefix (bytes given directly: GNU as does not emit them)
+    add('dup67 mov eax, DWORD PTR [bx]', 'mov', 32, 'r,m16addr', low=True, bases16=['ebx'], idx16=[], code='67678b07')
+    add('dup67 mov DWORD PTR [bx+si], ebx', 'mov', 32, 'm,r16addr', low=True, bases16=['ebx'], idx16=['esi'], code='67678918')
+    add('dup67 add BYTE PTR [di-1], cl', 'add', 8, 'm,r16addr', low=True, bases16=['edi'], idx16=[], code='6767004dff')
+    add('dup67 movs BYTE PTR es:[di], BYTE PTR ds:[si]', 'movs', 8, 'none16addr', 'string', low=True, bases16=['esi', 'edi'], idx16=[], string=True, code='6767a4')
+    add('dup67 scas eax, DWORD PTR es:[di]', 'scas', 32, 'none16addr', 'string', low=True, bases16=['edi'], idx16=[], string=True, code='6767af')
+    add('dup67 xlat BYTE PTR ds:[bx]', 'xlat', 8, 'none16addr', low=True, bases16=['ebx'], idx16=[], xlat=True, code='6767d7')
+    add('dup66 add ax, bx', 'add', 16, 'r,r+dup66', code='666601d8')
+    add('dup66 inc cx', 'inc', 16, 'r+dup66', code='666641')
+    add('dup66-67 mov ax, WORD PTR [bx]', 'mov', 16, 'r,m16addr', low=True, bases16=['ebx'], idx16=[], code='6667668b07')
+    add('dup67 loop .+0x10', 'loop', 32, 'rel8+67', 'ecx-class', branch='direct', code='6767e20d')
+    # ---- segment registers pushed with either size prefix (the slot size follows the operand size, never the address size); the
+    # selector value itself is the tracee's and is not compared
+    for sr in ('ds', 'es', 'ss', 'cs', 'fs', 'gs'):
+        add('push %s' % sr, 'push', 32, 'sreg', stack=True, segpush=True)
+        add('data16 push %s' % sr, 'push', 16, 'sreg+66', stack=True, segpush=True)
+        add('addr16 push %s' % sr, 'push', 32, 'sreg+67', stack=True, segpush=True)
     # ---- prefixes that do not change what a stack or control-transfer instruction does (address size never sizes the stack slot)
     for t, mn, form, extra in (('addr16 call .+0x40', 'call', 'rel32+67', dict(branch='direct', stack=True)), ('addr16 push eax', 'push', 'r+67', dict(stack=True)),
                                ('addr16 pop ebx', 'pop', 'r+67', dict(stack=True)), ('addr16 ret', 'ret', 'none+67', dict(branch='indirect', stack=True)),
@@ -321,6 +338,20 @@ def result_undefined(inst, regs, mem_src_zero):
 BOUNDARY32 = [0, 1, 2, 0x7f, 0x80, 0xff, 0x100, 0x7fff, 0x8000, 0xffff, 0x10000, 0x7fffffff, 0x80000000, 0xffffffff, 0xfffffffe, 0x55555555, 0xaaaaaaaa, 0x0000ffff, 0xffff0000, 31, 32, 33, 16, 15, 17, 8, 9, 7]
 
 
+def assemble(insts):
+    """GNU as encodings of the table rows; rows that carry their own bytes (forms GNU as refuses to emit, such as a repeated
+    prefix) are taken as given."""
+    idx = [k for k, i in enumerate(insts) if not i['extra'].get('code')]
+    res = gnuref.gas([insts[k]['text'] for k in idx], 'intel') if idx else []
+    out = [None] * len(insts)
+    for k, r in zip(idx, res):
+        out[k] = r
+    for k, i in enumerate(insts):
+        if i['extra'].get('code'):
+            out[k] = (bytes.fromhex(i['extra']['code']), '')
+    return out
+
+
 def hot_base(inst, regs):
     """Where the 1024 hot bytes live for this state: the normal data page, the low window (16-bit addressing), or - for string
     instructions whose 16-bit pointer sits just below 0x10000 - the top of the first 64K."""
@@ -368,7 +399,7 @@ def make_state(inst, rng, k):
         v = rng.choice((0, 1, 15, 16, 31, 32, 33, 100, 255, -1, -32, -33, -100)) if inst['size'] == 32 else rng.choice((0, 1, 15, 16, 17, 100, 0xffff, 0xffe0))
         regs[parent] = (v & 0xffffffff) if inst['size'] == 32 else ((regs[parent] & 0xffff0000) | (v & 0xffff))
     if inst['cls'] == 'ecx-class':
-        regs['ecx'] = rng.choice((0, 1, 2, 0x10000, 0xffffffff, 0x80000000, rng.getrandbits(32)))
+        regs['ecx'] = rng.choice((0, 1, 2, 0x10000, 0xffffffff, 0x80000000, rng.getrandbits(32), 0x00050001, 0xffff0001, 0x00010002, 0x7fff0000, 0x0001ffff))
     if inst['mn'] in ('div', 'idiv') and rng.random() < 0.7:
         # make non-faulting divisions frequent: small dividend high part
         regs['edx'] = rng.choice((0, 0, 1, 0xffffffff)) if inst['size'] == 32 else ((regs['edx'] & 0xffff0000) | rng.choice((0, 0, 1, 0xffff)))
@@ -485,6 +516,8 @@ def compare_case(sh, inst, code, ins, regs, flags, hot, cpu):
         if got != cpu['hot'][j]:
             mism = j
             break
+    if inst['extra'].get('segpush'):
+        mism = None        # the pushed selector is the tracee's own; esp and the written window are compared
     if mism is not None and not dst_undef:
         image_tf = mn == 'pushf'
         if image_tf:
@@ -546,16 +579,23 @@ def mode_twins():
     the operand-size prefix means the opposite in the other configuration (dis(..., {'opmode': u16, 'admode': u16})), so
     X under 66 in 32-bit code and X without prefix in 16-bit code are one instruction, and so are X and 66 X."""
     out = []
-    rows = [i for i in instances() if not i['bases'] and not i['idx'] and not i['extra'].get('low') and not i['extra'].get('stack') and not i['extra'].get('branch')
-            and not i['extra'].get('string') and '[' not in i['text'] and 'addr16' not in i['text'] and i['mn'] not in ('lea', 'xlat', 'enter', 'leave')]
-    asm = gnuref.gas([i['text'] for i in rows], 'intel')
+    rows = [i for i in instances() if not i['extra'].get('stack') and not i['extra'].get('branch') and not i['extra'].get('code') and 'addr16' not in i['text'] and i['mn'] not in ('enter', 'leave')]
+    asm = assemble(rows)
     for inst, (g, msg) in zip(rows, asm):
         if not g:
             continue
-        if g[:1] == b'\x66':
-            out.append((inst, g, g[1:]))
-        elif g[0] not in (0x67, 0xf2, 0xf3, 0xf0, 0x26, 0x2e, 0x36, 0x3e, 0x64, 0x65):
-            out.append((inst, g, b'\x66' + g))
+        k = 0
+        while k < len(g) and g[k] in (0x66, 0x67, 0xf2, 0xf3, 0xf0, 0x26, 0x2e, 0x36, 0x3e, 0x64, 0x65):
+            k += 1
+        pre, rest = list(g[:k]), g[k:]
+        uses_mem = bool(inst['bases'] or inst['idx'] or inst['extra'].get('low') or inst['extra'].get('string') or inst['extra'].get('xlat') or '[' in inst['text'])
+        # operand size: 66 means the opposite; address size (only relevant with a memory operand): 67 means the opposite
+        p16 = [b_ for b_ in pre if b_ not in (0x66, 0x67)]
+        if 0x66 not in pre:
+            p16.append(0x66)
+        if uses_mem and 0x67 not in pre:
+            p16.append(0x67)
+        out.append((inst, g, bytes(p16) + rest))
     return out
 
 
@@ -601,7 +641,12 @@ def run_mode16(sh, tier, seed):
                 env.ids.update({'tf': 0, 'i_f': 1, 'iopl_f': 0, 'nt': 0, 'rf': 0, 'vm': 0, 'ac': 0, 'vif': 0, 'vip': 0, 'i_d': 0})
                 try:
                     new, writes = irsem.exec_assignments(affs, env)
-                    outs.append(dict((w_[1], new.ids.get(w_[1])) for w_ in writes if w_[0] == 'id' and w_[1] != 'eip'))
+                    o_ = dict((w_[1], new.ids.get(w_[1])) for w_ in writes if w_[0] == 'id' and w_[1] != 'eip')
+                    for w_ in writes:
+                        if w_[0] == 'mem':
+                            for q_ in range(w_[2]):
+                                o_['mem:%08x' % ((w_[1] + q_) & 0xffffffff)] = new.mem.get((w_[1] + q_) & 0xffffffff)
+                    outs.append(o_)
                 except (irsem.Undefined, irsem.Uninterpreted):
                     outs.append(None)
                 except irsem.IllFormed:
@@ -615,9 +660,11 @@ def run_mode16(sh, tier, seed):
             und = undefined_flags(inst, regs, None)
             keys = (set(outs[0]) | set(outs[1])) - set(und)
             diff = sorted(k_ for k_ in keys if outs[0].get(k_, env.ids.get(k_)) != outs[1].get(k_, env.ids.get(k_)))
+            if diff and diff[0].startswith('mem:'):
+                diff = ['memory'] + diff
             if diff:
                 bad = ('value:' + diff[0], '%s: 32-bit code gives %s, 16-bit code gives %s [eax=%08x ecx=%08x edx=%08x ebx=%08x]' % (
-                    diff[0], outs[0].get(diff[0]), outs[1].get(diff[0]), regs['eax'], regs['ecx'], regs['edx'], regs['ebx']))
+                    diff[-1], outs[0].get(diff[-1]), outs[1].get(diff[-1]), regs['eax'], regs['ecx'], regs['edx'], regs['ebx']))
                 break
         sh.case(('mode16', inst['text']), compared > 0, cls=cls if compared else None)
         if bad:
@@ -627,7 +674,7 @@ def run_mode16(sh, tier, seed):
 def run_part(sh, insts, nstates, seed, tier):
     from miasmx.arch.ia32_arch import x86mnemo
     from miasmx.core.bin_stream import bin_stream
-    asm = gnuref.gas([i['text'] for i in insts], 'intel')
+    asm = assemble(insts)
     cases = []
     meta = []
     for inst, (g, msg) in zip(insts, asm):
